@@ -79,3 +79,69 @@ int main(){ arr_real a(%d); for(int i=0;i<a.size();++i) a[i]=i+1; std::vector<in
   catch(const std::exception&) { thrown=true; }
   if(thrown!=bad){ std::printf("thrown=%%d expected=%%d\\n",thrown,bad); return 1; } return 0; }
 ''' % (n, ','.join(idx))
+
+
+@adapter(r'const_slice_t<\*>::const_slice_t\|\(const dsplib::const_slice_t')
+def cslice_copy(o):
+    m = o['model'] or {}
+    n, i1, i2, st = I(m, 'rhs._n', 1), I(m, 'rhs._i1'), I(m, 'rhs._i2'), I(m, 'rhs._m', 1)
+    if n > 1 << 16:
+        return None
+    return HDR + '''
+int main(){ arr_real x0(%d); for(int i=0;i<x0.size();++i) x0[i]=i+1; const arr_real& x=x0;
+  try { const_slice_t<real_t> s = x.slice(%d,%d,%d); const_slice_t<real_t> c(s);
+        arr_real a(s), b(c); if(a.size()!=b.size()) { std::printf("size %%d vs %%d\\n",a.size(),b.size()); return 1; }
+        for(int k=0;k<a.size();++k) if(a[k]!=b[k]) return 1; }
+  catch(const std::exception& e) { std::printf("copy threw: %%s\\n", e.what()); return 1; }
+  return 0; }
+''' % (n, i1, i2, st)
+
+
+def py_count(i1, i2, m):
+    return len(range(i1, i2, m))
+
+
+@adapter(r'slice_t::operator=\(list\)')
+def slice_list(o):
+    m = o['model'] or {}
+    n, i1, i2, st, ln = I(m, 'this._n', 1), I(m, 'this._i1'), I(m, 'this._i2'), I(m, 'this._m', 1), I(m, 'rhs.len')
+    if n > 1 << 16 or ln > 64:
+        return None
+    nc = py_count(i1, i2, st)
+    return HDR + '''
+int main(){ arr_real x(%d); bool thrown=false;
+  try { x.slice(%d,%d,%d) = {%s}; } catch(const std::exception&) { thrown=true; }
+  bool expect_throw = (%d != %d);
+  if(thrown!=expect_throw){ std::printf("thrown=%%d expected=%%d\\n",thrown,expect_throw); return 1; } return 0; }
+''' % (n, i1, i2, st, ','.join(str(k + 1) + '.0' for k in range(ln)), nc, ln)
+
+
+@adapter(r'slice_t::operator=\(array\)')
+def slice_array(o):
+    m = o['model'] or {}
+    n, i1, i2, st, ln = I(m, 'this._n', 1), I(m, 'this._i1'), I(m, 'this._i2'), I(m, 'this._m', 1), I(m, 'rhs._vec.len')
+    if n > 1 << 16 or ln > 1 << 16:
+        return None
+    nc = py_count(i1, i2, st)
+    return HDR + '''
+int main(){ arr_real x(%d), r(%d); bool thrown=false;
+  try { x.slice(%d,%d,%d) = r; } catch(const std::exception& e) { thrown=true; std::printf("%%s\\n", e.what()); }
+  bool expect_throw = (%d != %d);
+  if(thrown!=expect_throw){ std::printf("thrown=%%d expected=%%d\\n",thrown,expect_throw); return 1; } return 0; }
+''' % (n, ln, i1, i2, st, nc, ln)
+
+
+@adapter(r'base_array\((const_)?slice\)')
+def materialise(o):
+    m = o['model'] or {}
+    n, i1, i2, st = I(m, 'rhs._n', 1), I(m, 'rhs._i1'), I(m, 'rhs._i2'), I(m, 'rhs._m', 1)
+    if n > 1 << 16:
+        return None
+    nc = py_count(i1, i2, st)
+    return HDR + '''
+int main(){ arr_real x0(%d); for(int i=0;i<x0.size();++i) x0[i]=i+1; const arr_real& x=x0;
+  try { arr_real y(x.slice(%d,%d,%d)); if(y.size()!=%d){ std::printf("size %%d\\n", y.size()); return 1; }
+        for(int k=0;k<y.size();++k) if(y[k]!=x[%d + k*(%d)]) return 1; }
+  catch(const std::exception& e) { std::printf("materialising the slice threw: %%s\\n", e.what()); return 1; }
+  return 0; }
+''' % (n, i1, i2, st, nc, i1, st)
